@@ -28,8 +28,8 @@ ZONES_MORE = ['Asia/Tehran', 'America/Sao_Paulo', 'Antarctica/Troll', 'Asia/Kolk
               'America/Scoresbysund', 'Africa/Cairo', 'Asia/Amman', 'America/Asuncion', 'Europe/Lisbon',
               'Atlantic/Azores', 'Pacific/Fiji', 'America/Caracas', 'Asia/Kathmandu', 'Pacific/Norfolk',
               'America/Chicago', 'Asia/Dhaka', 'Europe/Moscow', 'Asia/Pyongyang']
-PER_ZONE = {'quick': 90, 'thorough': 900}
-PER_ZONE_C16 = {'quick': 3, 'thorough': 30}
+PER_ZONE = {'quick': 90, 'thorough': 300}
+PER_ZONE_C16 = {'quick': 3, 'thorough': 12}
 
 ASSUMPTIONS = {p: [
     'the time-zone table (2000-2037) of each zone is extracted from whenever itself under TZ=<zone> on every run',
